@@ -834,8 +834,19 @@ def rule_logger_run(cx, cls, R):
         delay = d.args[1]
     elif isinstance(d, ast.Call) and callee_name(d) == "timeout" and len(d.args) == 1 and is_core_expr(d.func.value):
         delay = d.args[0]
+    raw_delay = delay
     delay = cx.inl(delay, fn) if delay is not None else None
-    if delay is None or not (isinstance(delay, ast.Call) and callee_name(delay) == "get" and is_self_attr(delay.func.value) and not delay.args):
+    stale_def = None
+    if raw_delay is not None:
+        for nm in [x for x in ast.walk(raw_delay) if isinstance(x, ast.Name)]:
+            dd = cx.locs(fn).defs.get(nm.id)
+            if dd is not None and not (loop.lineno <= dd.lineno <= (loop.end_lineno or loop.lineno)) and any(
+                    isinstance(c, ast.Call) and callee_name(c) == "get" for c in ast.walk(dd.value)):
+                stale_def = dd
+    if stale_def is not None:
+        rep.fail(R, I + "waits one logging period", "the period is read once, by `%s` before the loop: a parameter change broadcast while the logger runs is stored by the Param but never used, rows keep the old period"
+                 % unp(stale_def), where=cx.where(rel, stale_def), fact={"period": unp(delay)})
+    elif delay is None or not (isinstance(delay, ast.Call) and callee_name(delay) == "get" and is_self_attr(delay.func.value) and not delay.args):
         rep.incomplete(R, I + "waits one logging period", "yield value is not a Timeout of self.<param>.get(): %s" % unp(y), where=cx.where(rel, y))
     else:
         a = delay.func.value.attr
